@@ -13,8 +13,10 @@ import simlib
 RULE = ('exact stream: single stage, base-stock S in 0..30, shipment lead time L in 0..4, rates k/4, integer demand lists '
         '(length 6..30, values 0..13) — implementation trajectory vs the pathwise identities of C15_single_stage_pathwise and vs the '
         'Coq run of NW1; non-trivial = some period with backorders and some with positive stock, L >= 1. '
-        'statistical stream (search only): base-stock single stage L in 1..3 with Poisson / rounded-normal demand vs newsvendor cost of '
-        'L-period demand; (s,S) stage with L = 1 vs s_s_cost_discrete (simulated cost + K x order frequency); 2-3 stage serial system '
+        'demand-source stream (deterministic): a DemandSource driven through random setter sequences vs a fresh object with the same attributes '
+        '(lead-time demand mean / sd / cdf / quantile must be identical). '
+        'statistical stream (search only): base-stock single stage L in 1..3 with Poisson / low-variation normal demand (cv 0.05-0.15, levels up to 30% above the mean) vs newsvendor cost of '
+        'L-period demand; serial systems also with normal demand, one re-used DemandSource, echelon levels 1.0-1.5 x the optimum; (s,S) stage with L = 1 vs s_s_cost_discrete (simulated cost + K x order frequency); 2-3 stage serial system '
         'with local levels converted from echelon levels vs ssm_serial.expected_cost; batch means, band = 6 standard errors + 0.5% (SSM: 2%) '
         'of the analytical value (per-test false-alarm probability < 2e-9, < 1e-6 over the run).')
 
@@ -117,7 +119,80 @@ def statistical(chk, T, reps):
             n.inventory_policy.base_stock_level = S_loc[n.index]
         per = sim_costs(net, T, rng.randint(1, 10 ** 6))
         judge('serial-ssm', dict(N=N, mu=mu, he=he, L=Ls, p=p, S_ech=S_ech), per, analytic, 0.02)
+    # low-variation normal demand. One DemandSource object is re-used for the whole sweep and only its attributes are changed through the
+    # setters (the way a parameter study is written), and the levels go from the optimum to far above it.
+    from stockpyl.demand_source import DemandSource
+    ds = DemandSource(type='N', mean=20, standard_deviation=2)
+    nrm = max(2, reps // 2 + 1)
+    for j in range(nrm):
+        mu = rng.choice([20, 50]); cv = [0.05, 0.15, 0.08, 0.1][j % 4]; sd = mu * cv
+        # (i) single stage, base-stock
+        L = rng.randint(1, 3); h = rng.choice([1, 2]); p = rng.choice([4, 9, 19])
+        S = round(mu * L + rng.choice([-1, 0, 1, 2, 3]) * sd * math.sqrt(L) + rng.choice([0, 0, 0.3 * mu]), 2)
+        net = single_stage_system(holding_cost=h, stockout_cost=p, shipment_lead_time=L, demand_type='N', mean=mu, standard_deviation=sd, policy_type='BS', base_stock_level=S)
+        per = sim_costs(net, T, rng.randint(1, 10 ** 6))
+        judge('base-stock-normal', dict(L=L, mu=mu, sd=sd, h=h, p=p, S=S), per, float(newsvendor_normal_cost(S, h, p, mu * L, sd * math.sqrt(L))), 0.005)
+        # (ii) serial system, echelon levels at / above the optimum
+        N = rng.choice([2, 3]); p = rng.choice([8, 15])
+        he = {k: rng.choice([1, 2]) for k in range(1, N + 1)}; Ls = {k: rng.choice([1, 2]) for k in range(1, N + 1)}
+        if ds.mean != mu: ds.mean = mu
+        ds.standard_deviation = sd
+        S_opt, _ = ssm_serial.optimize_base_stock_levels(num_nodes=N, echelon_holding_cost=he, lead_time=Ls, stockout_cost=p, demand_source=ds)
+        factor = [1.5, 1.0, 1.3, 1.15][j % 4]
+        S_ech = {k: round(float(v) * factor, 2) for k, v in S_opt.items()}
+        for k in range(2, N + 1): S_ech[k] = max(S_ech[k], S_ech[k - 1])
+        analytic = float(ssm_serial.expected_cost(S_ech, num_nodes=N, echelon_holding_cost=he, lead_time=Ls, stockout_cost=p, demand_source=ds))
+        order = list(range(N, 0, -1))
+        local_h = {k: sum(he[i] for i in range(k, N + 1)) for k in range(1, N + 1)}
+        net = serial_system(N, node_order_in_system=order, local_holding_cost=local_h, stockout_cost={k: (p if k == 1 else 0) for k in order},
+                            shipment_lead_time=Ls, demand_type='N', mean=mu, standard_deviation=sd, policy_type='BS', base_stock_level={k: 0 for k in order})
+        S_loc = echelon_to_local_base_stock_levels(net, S_ech)
+        for n in net.nodes:
+            n.inventory_policy.base_stock_level = S_loc[n.index]
+        per = sim_costs(net, T, rng.randint(1, 10 ** 6))
+        judge('serial-ssm-normal', dict(N=N, mu=mu, sd=sd, he=he, L=Ls, p=p, S_ech=S_ech, factor=factor), per, analytic, 0.02)
     chk.extra['statistical_tests'] = tests
+
+
+DS_ATTRS = {'N': dict(mean=[5, 20, 50], standard_deviation=[0.5, 1, 2, 7.5]), 'P': dict(mean=[2, 4.5, 9]), 'UD': dict(lo=[0, 2], hi=[5, 9]),
+            'UC': dict(lo=[0, 2.5], hi=[5.5, 9]), 'CD': dict(demand_list=[[0, 1, 2], [1, 3, 5, 7]], probabilities=[None])}
+
+
+def demand_source_stream(chk, n):
+    """deterministic: a DemandSource re-used through its setters must describe the same lead-time demand as a fresh object with the
+    same attributes (the analytical side of every comparison above reads the demand through it)"""
+    from stockpyl.demand_source import DemandSource
+    rng = chk.rng
+    def fresh(state):
+        d = DemandSource()
+        for k, v in state.items(): setattr(d, k, v)
+        return d
+    def describe(d, L):
+        dist = d.lead_time_demand_distribution(L)
+        return [float(dist.mean()), float(dist.std()), float(dist.cdf(dist.mean())), float(dist.ppf(0.9))]
+    for _ in range(n):
+        state = {}; obj = DemandSource(); ops = []
+        for step in range(rng.randint(3, 8)):
+            if step == 0 or rng.random() < 0.2:
+                ty = rng.choice(list(DS_ATTRS)); upd = {'type': ty}
+                for a, vals in DS_ATTRS[ty].items(): upd[a] = rng.choice(vals)
+                if ty == 'CD': upd['probabilities'] = [1.0 / len(upd['demand_list'])] * len(upd['demand_list'])
+            else:
+                ty = state['type']; a = rng.choice([x for x in DS_ATTRS[ty] if x != 'probabilities']); upd = {a: rng.choice(DS_ATTRS[ty][a])}
+                if a == 'demand_list': upd['probabilities'] = [1.0 / len(upd[a])] * len(upd[a])
+            for k, v in upd.items(): setattr(obj, k, v)
+            state.update(upd); ops.append(upd)
+            L = rng.choice([1, 2, 3])
+            case = dict(stream='demand-source', ops=jsonable(ops), L=L)
+            try:
+                a_ = describe(obj, L); b_ = describe(fresh(state), L)
+            except Exception as e:
+                chk.fail('DemandSource.lead_time_demand_distribution|raises-%s' % exc_kind(e), '%s: %s' % (type(e).__name__, str(e)[:200]), case); break
+            if a_ != b_:
+                chk.fail('DemandSource.lead_time_demand_distribution|stale-after-setter|%s' % '+'.join(sorted(upd)),
+                         'after %s the re-used object gives (mean, sd, cdf(mean), ppf(0.9)) = %s for L=%d, a fresh object with the same attributes %s' % (upd, a_, L, b_), case)
+                break
+        chk.count('demand_source_sequences'); chk.case(dict(stream='demand-source', ops=jsonable(ops)), len(ops) > 3)
 
 
 def run(chk):
@@ -151,6 +226,7 @@ def run(chk):
                 chk.mismatch('NW1 run %r vs implementation %r' % (jsonable(mod[:6]), jsonable(imp[:6])), c)
         nontriv = nd['slt'] >= 1 and any(R[1]['IL'] < 0 for R in r['recs']) and any(R[1]['IL'] > 0 for R in r['recs'])
         chk.count('L=%d' % nd['slt']); chk.case(c, nontriv, simlib.case_key(c))
+    demand_source_stream(chk, 60 if quick else 600)
     statistical(chk, 6000 if quick else 40000, 3 if quick else 10)
     if (chk.broken or chk.mismatches) and not chk.fails:
         for _ in range(10 * n):
@@ -167,6 +243,20 @@ def replay(chk, rp):
     c = rp['case']
     if c.get('stream') == 'statistical':
         print('statistical case: re-run ./check C15 --tier quick with the same seed to reproduce'); return
+    if c.get('stream') == 'demand-source':
+        from stockpyl.demand_source import DemandSource
+        obj = DemandSource(); state = {}
+        for upd in c['ops']:
+            for k, v in upd.items(): setattr(obj, k, v)
+            state.update(upd)
+        d = DemandSource()
+        for k, v in state.items(): setattr(d, k, v)
+        L = c.get('L', 1)
+        a = obj.lead_time_demand_distribution(L); b = d.lead_time_demand_distribution(L)
+        print('re-used:', a.mean(), a.std(), ' fresh:', b.mean(), b.std())
+        if (float(a.mean()), float(a.std())) != (float(b.mean()), float(b.std())):
+            chk.fail('DemandSource.lead_time_demand_distribution|stale-after-setter|%s' % '+'.join(sorted(c['ops'][-1])), 're-used object differs from a fresh one', c)
+        chk.case(c); return
     c = simlib.case_from_json(c)
     r = simlib.run_impl(c)
     for sig, what in pathwise_oracle(c, r['recs']):
